@@ -153,8 +153,10 @@ def mk_css(K, first, second, rot):
                 return 'section_is_not_the_innermost_rule'
             decls = [c for c in r.children if c.kind == 'decl']
             props = sec.properties or []
-            if any([c.kind == 'stmt' for c in r.children]):
-                decls = props = []        # how value-less statements show up among the properties is not stated
+            # value-less statements may or may not show up among the properties (not stated): entries whose name range is a
+            # statement are ignored, the declarations around them must still be exact
+            stmt_names = [(c.start, c.name_end) for c in r.children if c.kind == 'stmt']
+            props = [p for p in props if tuple(p.name) not in stmt_names]
             if len(props) != len(decls):
                 return 'direct_declarations_missing_or_extra'
             for p, d in zip(props, decls):
@@ -166,7 +168,12 @@ def mk_css(K, first, second, rot):
                     return 'after_offset_differs'
                 i = r.children.index(d)
                 before = r.brace + 1 if i == 0 else r.children[i - 1].end
-                if p.before != before:
+                if i > 0 and r.children[i - 1].kind == 'stmt':
+                    # after a value-less statement the library starts `before` at the next name; the property does not say:
+                    # anything from the end of the statement to the name start is accepted
+                    if not (before <= p.before <= d.start):
+                        return 'before_offset_differs'
+                elif p.before != before:
                     return 'before_offset_differs'
         elif not rules and sec is not None:
             return 'section_outside_any_rule'
